@@ -31,6 +31,9 @@ func jsonLeaks(v interface{}) int {
 		return n
 	case map[string]interface{}:
 		n := 0
+		if t, _ := x["type"].(string); t == "Link" || t == "Mention" {
+			return 0 // a Link is not an object: it has no recipients and Clean() does not walk its preview
+		}
 		if _, ok := x["bto"]; ok {
 			n++
 		}
